@@ -16,6 +16,8 @@ def softModeJ (m : SoftMode.Mode) : Json :=
     (`SoftMode.filterModeNow (tagMode present parseOk tag)`), as
     `{"query": {"valid","zero","text"}, "update": {…}, "delete": {…}}`.
     `["c08.chain", propagate, u, steps]` — `AssocScope.finisherUnscoped` (tie suite `chain.tie`).
+    `["c08.deleteAssoc", arm, propagate, u]` — `AssocScope.deleteAssocFlag` over the regenerated arms of DeleteBeforeAssociations
+    (tie suite `assoc.tie`); `["c08.deleteAssoc.allCopy"]` — `AssocScope.deleteAssocAllCopy` (is F33's repair present).
     `["c08.preloadAssign", destKind ("struct" | "slice"), relKind ("hasone" | "hasmany" | "belongsto" | "m2m"), old, fetched]` —
     `PreloadAssign.preloadField` over the regenerated clean-up arms: the keys a relation field shows after preload() when it held
     `old` and the child query returned `fetched` for this parent; `["c08.joinsAssign", old, fetched]` — `joinsAssign` (tie suite `dest.tie`). -/
@@ -37,6 +39,17 @@ def handleC08 (op : String) (args : Array Json) : Option Json := do
     let steps ← jArr? (arg args 3)
     let chain ← steps.toList.mapM jStr?
     some (Json.bool (AssocScope.finisherUnscoped propagate u chain))
+  | "c08.deleteAssoc" =>
+    -- `["c08.deleteAssoc", arm : String, propagate : Bool, u : Bool]` → the Statement.Unscoped the nested Delete of that arm of
+    -- DeleteBeforeAssociations sees on THIS tree (regenerated arms); null: no such arm.  `["c08.deleteAssoc.allCopy"]` → Bool
+    let arm ← jStr? (arg args 1)
+    let propagate ← jBool? (arg args 2)
+    let u ← jBool? (arg args 3)
+    some (match AssocScope.deleteAssocFlag Gen.deleteAssocArms arm propagate u with
+      | some b => Json.bool b
+      | none => Json.null)
+  | "c08.deleteAssoc.allCopy" =>
+    some (Json.bool (AssocScope.deleteAssocAllCopy Gen.deleteAssocArms))
   | "c08.preloadAssign" =>
     let dk ← (match (arg args 1).getStr?.toOption with
       | some "struct" => some PreloadAssign.DestKind.struct
